@@ -491,7 +491,7 @@ async def drive_ap2_late_then_stop():
     return trace
 
 
-async def drive_mrp_deep(history, drop=None, encrypted=False):
+async def drive_mrp_deep(history, drop=None, encrypted=False, reassign=None):
     """MrpProtocol.enable_heartbeat on top of the REAL MrpConnection with a device listener: after
     the fatal run the device listener must be told exactly once that the connection is gone.
     drop = "inflight" / "sleeping": after the history the DEVICE drops the TCP connection (the
@@ -511,12 +511,24 @@ async def drive_mrp_deep(history, drop=None, encrypted=False):
     reports = []
     sent = []
 
+    keep = []
+
     class L:
+        # reassign = "same" / "new": the application's handler (re-)installs a listener on the device
+        # object while it is being told (an application re-arming itself): still one report in all
+        def _again(self):
+            if reassign:
+                nxt = self if reassign == "same" else L()
+                keep.append(nxt)
+                sp.listener = nxt
+
         def connection_lost(self, exc):
             reports.append("lost")
+            self._again()
 
         def connection_closed(self):
             reports.append("closed")
+            self._again()
 
     listener = L()
 
@@ -525,8 +537,15 @@ async def drive_mrp_deep(history, drop=None, encrypted=False):
         protocol down, and a protocol that is torn down (DMAP does) reports connection_closed from
         inside that hook - which must not reach the user's listener as a second notification."""
 
+        torn = False
+
         def state_was_updated(self):
             self.listener.connection_closed()
+            # ... and the other protocols' transports report their own closing on a later turn of the
+            # loop (FacadeAppleTV.close() -> SetupData.close() -> transport.close() -> connection_lost(None))
+            if not self.torn:
+                self.torn = True
+                loop.call_soon(lambda: self.listener.connection_closed())
     sp = Device(max_calls=1)
     sp.listener = listener
     conn = MrpConnection("127.0.0.1", 1, loop, atv=sp)
@@ -725,20 +744,21 @@ def callsites(ctx, cases_mrp, cases_ap2):
             hist = hist0.replace("x", "O")
             if model_py(r, hist[:-1]) or (enc and "x" not in hist0):
                 continue
-            trace, reports, closed = vloop.run(drive_mrp_deep, hist0, None, enc)
-            ctx.case(("mrp-deep", hist0, enc), nontrivial=True)
-            ctx.count("mrp-deep" + ("-encrypted" if enc else ""))
-            errs = [e for e in oracle(r, hist, [t for t in trace if t != "ActivityAfterFailure"], True) if e != "finish-not-once-on-cancel"]
-            if "ActivityAfterFailure" in trace:
-                errs.append("activity-after-failure")
-            # the device listener is told exactly once that the connection is gone (after the fatal run
-            # or at the latest when the protocol is stopped at the end of the scenario)
-            if len(reports) != 1:
-                errs.append("device-listener-told-%d-times" % len(reports))
-            for e in errs:
-                ctx.violation("C19:mrp-callsite:" + e, "MRP keep-alive over the real MrpConnection: " + e,
-                              {"site": "mrp-deep", "device": hist0, "encrypted": enc, "impl_trace": trace, "listener_reports": reports})
-            cases_mrp.append((r, hist, [t for t in trace if t != "ActivityAfterFailure"], "Failure" in trace))
+            for rea in ((None, "same", "new") if not enc else (None,)):
+                trace, reports, closed = vloop.run(drive_mrp_deep, hist0, None, enc, rea)
+                ctx.case(("mrp-deep", hist0, enc, rea), nontrivial=True)
+                ctx.count("mrp-deep" + ("-encrypted" if enc else "") + ("-listener-reassigned-in-handler" if rea else ""))
+                errs = [e for e in oracle(r, hist, [t for t in trace if t != "ActivityAfterFailure"], True) if e != "finish-not-once-on-cancel"]
+                if "ActivityAfterFailure" in trace:
+                    errs.append("activity-after-failure")
+                # the device listener is told exactly once that the connection is gone (after the fatal run
+                # or at the latest when the protocol is stopped at the end of the scenario)
+                if len(reports) != 1:
+                    errs.append("device-listener-told-%d-times" % len(reports))
+                for e in errs:
+                    ctx.violation("C19:mrp-callsite:" + e, "MRP keep-alive over the real MrpConnection: " + e,
+                                  {"site": "mrp-deep", "device": hist0, "encrypted": enc, "reassign": rea, "impl_trace": trace, "listener_reports": reports})
+                cases_mrp.append((r, hist, [t for t in trace if t != "ActivityAfterFailure"], "Failure" in trace))
     # the device drops the connection while a keep-alive is outstanding / while the loop sleeps
     for n in range(0, maxlen - 1):
         for hist in itertools.product("OF", repeat=n):
@@ -748,20 +768,21 @@ def callsites(ctx, cases_mrp, cases_ap2):
             for drop in ("inflight", "sleeping"):
                 if drop == "sleeping" and hist.endswith("F"):
                     continue      # a failed keep-alive is retried at once: the loop does not sleep there
-                trace, reports, closed = vloop.run(drive_mrp_deep, hist, drop)
-                ctx.case(("mrp-drop", hist, drop), nontrivial=True, sample={"site": "device drops the connection during MRP keep-alive", "device": hist, "when": drop, "trace": trace, "listener_reports": reports} if hist == "OF" else None)
-                ctx.count("mrp-drop-" + drop)
-                errs = []
-                if "SendAfterDrop" in trace:
-                    errs.append("keepalive-after-connection-lost")
-                if "FailureAfterDrop" in trace:
-                    errs.append("failure-declared-after-connection-lost")
-                if "ReportAfterDrop" in trace or len(reports) != 1:
-                    errs.append("device-listener-told-%d-times" % len(reports))
-                for e in errs:
-                    ctx.violation("C19:mrp-callsite:" + e, "device drops the connection during MRP keep-alive (%s): %s" % (drop, e),
-                                  {"site": "mrp-drop", "device": hist, "when": drop, "impl_trace": trace, "listener_reports": reports})
-                cases_mrp.append((r, hist + ("C" if drop == "inflight" else "S"), [t for t in trace if t in ("Send", "Finish")], False))
+                for rea in (None, "same", "new"):
+                    trace, reports, closed = vloop.run(drive_mrp_deep, hist, drop, False, rea)
+                    ctx.case(("mrp-drop", hist, drop, rea), nontrivial=True, sample={"site": "device drops the connection during MRP keep-alive", "device": hist, "when": drop, "trace": trace, "listener_reports": reports} if hist == "OF" else None)
+                    ctx.count("mrp-drop-" + drop)
+                    errs = []
+                    if "SendAfterDrop" in trace:
+                        errs.append("keepalive-after-connection-lost")
+                    if "FailureAfterDrop" in trace:
+                        errs.append("failure-declared-after-connection-lost")
+                    if "ReportAfterDrop" in trace or len(reports) != 1:
+                        errs.append("device-listener-told-%d-times" % len(reports))
+                    for e in errs:
+                        ctx.violation("C19:mrp-callsite:" + e, "device drops the connection during MRP keep-alive (%s): %s" % (drop, e),
+                                      {"site": "mrp-drop", "device": hist, "when": drop, "reassign": rea, "impl_trace": trace, "listener_reports": reports})
+                    cases_mrp.append((r, hist + ("C" if drop == "inflight" else "S"), [t for t in trace if t in ("Send", "Finish")], False))
     # user closes the connection (stop) while a keep-alive is outstanding, after every live prefix
     for n in range(0, maxlen):
         for hist in itertools.product("OF", repeat=n):
@@ -929,7 +950,7 @@ def replay(ctx, path):
         print("device=%s trace=%s" % (rp["device"], trace))
         return 1 if ("SendAfterStop" in trace or "FailureAfterStop" in trace) else 0
     elif site == "mrp-drop":
-        trace, reports, closed = vloop.run(drive_mrp_deep, rp["device"], rp["when"])
+        trace, reports, closed = vloop.run(drive_mrp_deep, rp["device"], rp["when"], False, rp.get("reassign"))
         print("device=%s when=%s trace=%s listener reports=%s" % (rp["device"], rp["when"], trace, reports))
         return 1 if ("SendAfterDrop" in trace or "FailureAfterDrop" in trace or "ReportAfterDrop" in trace or len(reports) != 1) else 0
     elif site == "ap2-late-then-stop":
@@ -945,7 +966,7 @@ def replay(ctx, path):
         trace = vloop.run(drive_ap2_deep, rp["device"], bool(rp.get("encrypted")))
         hist = rp["device"].replace("E", "F").replace("o", "O")
     elif site == "mrp-deep":
-        trace, reports, closed = vloop.run(drive_mrp_deep, rp["device"], None, bool(rp.get("encrypted")))
+        trace, reports, closed = vloop.run(drive_mrp_deep, rp["device"], None, bool(rp.get("encrypted")), rp.get("reassign"))
         hist = rp["device"].replace("x", "O")
         print("listener reports:", reports)
         if len(reports) != 1:
